@@ -416,8 +416,9 @@ class Balancer:
             other_adds = tuple(a for a in lhs.args if a.concrete)
             if not other_adds:
                 return truism
+        op, old_rhs = Balancer._nonstrict(truism.op, old_rhs)
         new_rhs = BV("__sub__", (old_rhs, *other_adds), length=len(lhs))
-        return Bool(truism.op, (new_lhs, new_rhs))
+        return Bool(op, (new_lhs, new_rhs))
 
     @staticmethod
     def _balance_sub(truism):
@@ -426,8 +427,35 @@ class Balancer:
         new_lhs = truism.args[0].args[0]
         old_rhs = truism.args[1]
         other_adds = truism.args[0].args[1:]
+        op, old_rhs = Balancer._nonstrict(truism.op, old_rhs)
         new_rhs = BV("__add__", (old_rhs, *other_adds), length=len(truism.args[0]))
-        return Bool(truism.op, (new_lhs, new_rhs))
+        return Bool(op, (new_lhs, new_rhs))
+
+    @staticmethod
+    def _nonstrict(op, rhs):
+        """
+        `a < c` is `a <= c - 1` unless c can be the smallest value, and likewise for `>`. The bounds found after terms
+        have been moved to the other side are read modulo 2**n (a lower bound above the upper bound is a wrapped
+        interval); the -1/+1 of a strict comparison must be applied before that move, not to the wrapped constant:
+        x + 1 > 0 would otherwise become x > 2**n - 1.
+        """
+        info = Balancer.comparison_info.get(op)
+        if info is None or info[1]:
+            return op, rhs
+        is_lt, _, is_unsigned = info
+        size = len(rhs)
+        try:
+            if is_lt:
+                smallest = 0 if is_unsigned else -(1 << (size - 1))
+                if Balancer._min(rhs, signed=not is_unsigned) == smallest:
+                    return op, rhs
+                return ("ULE" if is_unsigned else "SLE"), rhs - 1
+            largest = (1 << size) - 1 if is_unsigned else (1 << (size - 1)) - 1
+            if Balancer._max(rhs, signed=not is_unsigned) == largest:
+                return op, rhs
+            return ("UGE" if is_unsigned else "SGE"), rhs + 1
+        except BackendError:
+            return op, rhs
 
     @staticmethod
     def _balance_zeroext(truism):
